@@ -300,6 +300,14 @@ func verifC05(sh gen.Shape) {
 	rt.Observe("err", err != nil)
 	if clash != "" {
 		rt.Cover("type-clash")
+		if err == nil && clash == "clash/des=null/obs=map" {
+			// (the recorded finding: a null over an observed object is treated as "no
+			// opinion". What the code does there is still bound by the removal law:
+			// the keys that were applied earlier go, the rest of the object stays.
+			// Checked BEFORE the assertion of the finding itself: a path ends at its
+			// first failed assertion.)
+			verifNullOverMap(obs0.(map[string]interface{}), last0, des0.(map[string]interface{}), res)
+		}
 		rt.Assert(err != nil, "L1-"+clash+"/silently-dropped")
 		return
 	}
@@ -322,6 +330,42 @@ func verifC05(sh gen.Shape) {
 	rt.Assert(err2 == nil, "L5-idempotence/error")
 	if err2 == nil {
 		gen.Equal(res2, res, "L5-idempotence")
+	}
+}
+
+// verifNullOverMap: for every top-level field whose desired value is null and
+// whose observed value is an object, the result keeps the observed object
+// without the keys the last-applied record lists for it (L2 removal, L3
+// preservation inside the known-finding region).
+func verifNullOverMap(obs map[string]interface{}, last interface{}, des map[string]interface{}, res map[string]interface{}) {
+	lm, _ := last.(map[string]interface{})
+	for k, dv := range des {
+		if dv != nil {
+			continue
+		}
+		om, isMap := obs[k].(map[string]interface{})
+		if !isMap {
+			continue
+		}
+		rm, ok := res[k].(map[string]interface{})
+		rt.Assert(ok, "L3-preservation/null-over-object/object-not-kept")
+		if !ok {
+			continue
+		}
+		lk, _ := lm[k].(map[string]interface{})
+		for sk, sv := range om {
+			_, applied := lk[sk]
+			rv, has := rm[sk]
+			if applied {
+				rt.Assert(!has, "L2-removal/null-over-object/previously-applied-key-not-removed")
+			} else {
+				rt.Assert(has, "L3-preservation/null-over-object/foreign-key-lost")
+				if has {
+					gen.Equal(rv, sv, "L3-preservation/null-over-object/foreign-key-changed")
+				}
+			}
+		}
+		rt.Cover("null-over-object-checked")
 	}
 }
 
